@@ -6,7 +6,7 @@
 (* pump.  Every completed behaviour is one document; it is printed as a    *)
 (* CASE line for the conformance harness.                                  *)
 (***************************************************************************)
-EXTENDS LiveEvents, Json
+EXTENDS LiveEvents, Bounds, Json
 CONSTANTS MaxEv, Names, Scalars, AllowContainerKeys
 VARIABLES stk, nmap, nid, idname, phase
 
@@ -64,6 +64,13 @@ InvInjectDepth == InjectDepthLeOne
 InvRecOrdered == RecStackOrdered
 InvBuffers == BuffersAreNodes
 InvReplayBounded == ReplayBounded /\ PerAnchorBounded
+(* C08: the pump stops at exactly the alias limit Bounds!FirstTrip names, and only then *)
+InvTripAgrees == Finished =>
+  LET t == FirstTrip(raw, [total |-> MaxTotalReplayed, per |-> MaxPerAnchor, stack |-> MaxStackDepth]) IN
+  /\ (st = "done") = (t = "ok") /\ (st = "err_total") = (t = "total") /\ (st = "err_peranchor") = (t = "per_anchor")
+  /\ (st = "err_stack") = (t = "stack") /\ (st = "err_recursive") = (t = "unresolved")
+(* what the pump delivered and replayed are the closed forms *)
+InvClosedForms == (Finished /\ st = "done") => (replayed = Replayed(raw) /\ Len(SelectSeq(out, LAMBDA e : IsNodeStart(e))) = DeliveredNodes(raw))
 (* termination measure: every run step consumes a raw event, a replay event or a stack frame *)
 EmitCase == Finished => PrintT(<<"CASE", ToJson([doc |-> raw, names |-> idname, st |-> st])>>)
 =============================================================================
